@@ -217,10 +217,27 @@ func dig(s string) int { return int(crc32.ChecksumIEEE([]byte(s)) & 0x3fffffff) 
 // resetTm empties tm on both sides (scenarios share the two databases)
 func (sc *script) resetTm() {
 	for _, s := range []*side{sc.L, sc.R} {
-		func() {
-			defer func() { recover() }()
-			cs.Action(s.db, "delete tm")
-		}()
+		var err any
+		for try := 0; try < 5; try++ {
+			err = func() (e any) {
+				defer func() { e = recover() }()
+				cs.Action(s.db, "delete tm")
+				return nil
+			}()
+			if err == nil {
+				break
+			}
+			time.Sleep(20 * time.Millisecond)
+		}
+		if err != nil {
+			cs.Fatal("cannot empty tm on side %s: %v", s.name, err)
+		}
+		t := s.local.Transaction(false)
+		row, _ := t.Query("tm", nil).Get(core.NewThread(nil), core.Next)
+		t.Complete()
+		if row != nil {
+			cs.Fatal("tm not empty at the start of a scenario on side %s", s.name)
+		}
 	}
 }
 
